@@ -335,7 +335,7 @@ func replayConv(raw json.RawMessage) (string, string) {
 }
 
 func TestDocumentToPatches(t *testing.T) {
-	ev.Rule(chkConvert, "rapid: documents with non-empty publicKey (1-4 keys of all types / purposes / material), service (1-3 services of every endpoint shape) and alsoKnownAs (1-4 URIs) sections and 0-3 other members with plain names (letters, digits, _) and arbitrary JSON values (incl. null, nested null, empty string / list / object, 0, false); oracle: ApplyPatches({}, PatchesFromDocument(doc)) == doc as JSON values; non-trivial = document with >= 1 other member")
+	ev.Rule(chkConvert, "rapid: documents with non-empty publicKey (1-4 keys of all types / purposes / material), service (1-3 services of every endpoint shape) and alsoKnownAs (1-4 URIs) sections and 0-3 other members with plain names (letters, digits, _) or, one in three, awkward ones (blank, quote, backslash, control and non-ASCII characters, printf verbs, empty, names that start like a protected section or look like JSON; never '~' or '/') and arbitrary JSON values (incl. null, nested null, empty string / list / object, 0, false); oracle: ApplyPatches({}, PatchesFromDocument(doc)) == doc as JSON values; non-trivial = document with >= 1 other member")
 	ev.Rapid(t, chkConvert, 800, 8000, func(t *rapid.T) {
 		d := map[string]interface{}{}
 		var ks, ss, us []interface{}
@@ -352,6 +352,10 @@ func TestDocumentToPatches(t *testing.T) {
 		n := rapid.IntRange(0, 3).Draw(t, "others")
 		for i := 0; i < n; i++ {
 			name := rapid.StringMatching(`[A-Za-z][A-Za-z0-9_]{0,8}`).Draw(t, "memberName")
+			if rapid.IntRange(0, 2).Draw(t, "awkwardName") == 0 {
+				// legal JSON member names without '~' or '/' (the statement's precondition) that are easy to mishandle
+				name = rapid.SampledFrom(gen.AwkwardNames).Draw(t, "awkward")
+			}
 			if name == "publicKey" || name == "service" || name == "alsoKnownAs" || name == "id" {
 				continue
 			}
